@@ -12,7 +12,7 @@ RULE = ('streams produced by the independent nondeterministic reference encoder 
         '<= 2 trailing ASCII codewords rule; Base256 with 1-/2-byte length and running to the end of the symbol), Macro 05/06 and FNC1 '
         'prefixes, padding to a real symbol capacity; every stream is first validated by the independent decoder refdec.py; '
         'non-trivial = stream with at least one non-ASCII run')
-THEOREMS = 'C04_scripts, C04_randomisers, C04_c40_tables'
+THEOREMS = 'C04_scripts, C04_macro05, C04_macro06, C04_fnc1, C04_randomisers, C04_c40_tables'
 ASSUMPTIONS = ['refenc.py / refdec.py are independent readings of ISO/IEC 16022 5.2 (each stream is accepted by both before use)']
 
 
